@@ -181,8 +181,11 @@ func (h *harness) issue(o op) {
 		_ = cancel // kept in the subscribers
 		var group []*subscriber
 		var chans []chan<- int
+		h.mu.Lock()
+		afterClose := h.closeReturned
+		h.mu.Unlock()
 		for k := 0; k <= o.More; k++ {
-			s := &subscriber{ctx: ctx, cancel: cancel, ch: make(chan int, o.Cap), style: o.Style, stop: make(chan struct{}), afterClose: h.closeReturned, issuedAtSub: h.doneCount()}
+			s := &subscriber{ctx: ctx, cancel: cancel, ch: make(chan int, o.Cap), style: o.Style, stop: make(chan struct{}), afterClose: afterClose, issuedAtSub: h.doneCount()}
 			group = append(group, s)
 			chans = append(chans, s.ch)
 		}
@@ -193,7 +196,9 @@ func (h *harness) issue(o op) {
 			h.out.multiSub = true
 		}
 		for _, s := range group {
-			h.subs = append(h.subs, s)
+			h.mu.Lock()
+			h.subs = append(h.subs, s) // (a Close goroutine of the same group snapshots h.subs under h.mu)
+			h.mu.Unlock()
 			h.out.nsubs++
 			if o.Style == "prompt" {
 				h.wg.Add(1)
